@@ -157,7 +157,7 @@ pub fn run(args: &Args) -> Report {
         "C04",
         "exhaustive over the regenerated grammar table: every block/keyword type reachable from PROJECT x {base form with every parameter (sequences with one element), each optional sub-element, each of the six declared versions with the version diagnostics the table prescribes} and x single deviations {each parameter deleted, duplicated single child, missing required child, /begin../end around a keyword, block without /begin, unknown enum value, each version-gated enum value under each version}; strict and non-strict. non-trivial = every case; distinct = distinct texts",
     );
-    let g = match Grammar::load() {
+    let g = match Grammar::load_reference() {
         Ok(g) => g,
         Err(e) => {
             rep.fail("infrastructure", String::new(), e);
